@@ -12,7 +12,7 @@ from ..callgraph import CallGraph
 from ..cfg import cfg_of
 from ..model import FunctionInfo, AnalysisError
 from ..report import Ctx
-from ..util import cmp_views, norm, fn_body_nodes, kwarg
+from ..util import posarg, cmp_views, norm, fn_body_nodes, kwarg
 from .common import arg_permutation_rule, names_in, calls_named
 from . import simloop as SL
 from .c10 import depends_on
@@ -239,10 +239,11 @@ def run(ctx: Ctx):
     SL.sim4_advance(ctx, L, must_follow=("_observe", "end_of_timestep"))
     obs = [c for c in ast.walk(L.loop) if isinstance(c, ast.Call) and ast.unparse(c.func) == "self._observe"]
     if obs:
-        got = [ast.unparse(a) for a in obs[0].args]
+        args4 = [posarg(obs[0], i) for i in range(4)]       # by parameter, positional or keyword
+        got = [ast.unparse(a) if a is not None else "?" for a in args4]
         ai = next((d.var for d in cfg.defs if d.stmt in [n for n in L.body] and d.value is not None and "_act" in ast.unparse(d.value)), None)
         want = [s_idx, ai or (ast.unparse(act[0]) if act else "ai"), rvar or f"{L.model}.reward({L.s}, {ast.unparse(L.a_expr)}, {L.ns})", ns_idx]
-        ok = [canon(tr, a) for a in obs[0].args] == [canon(tr, w) for w in want]      # compared with temporaries expanded on both sides
+        ok = all(a is not None for a in args4) and [canon(tr, a) for a in args4] == [canon(tr, w) for w in want]      # compared with temporaries expanded on both sides
         ctx.check(ok, "OBS-1", tr, obs[0], f"_observe({', '.join(want)})", "", f"the model is updated with ({', '.join(got)}), not with this step's (state, action, reward, successor)")
         gm = kwarg(obs[0], "gamma")
         ctx.check(gm is not None and canon(tr, gm) == f"{L.model}.discount_rate", "OBS-1", tr, obs[0], "re-solve uses the MDP's discount rate", "", "discount passed to the re-solve is not the MDP's")
